@@ -5,6 +5,7 @@ represented in SMT and what the external dependencies (virttest Params, ...) are
 """
 import z3
 
+from pyvc.kinds import safe_forall
 from pyvc.kinds import (V, NONE, VNone, VTuple, VList, VDict, VFunc, VClass, VModule, INT, BOOL, STR, REAL, Ref, Seq,
                         SetK, Map, Arr, Opt, PyKind, RefSort, NULL, const, concrete, fresh, fresh_name)
 from pyvc.engine import Untranslatable
@@ -452,10 +453,10 @@ def axioms(eng):
             c = card_fn(sort)
             S = z3.Const("ax_S", z3.ArraySort(sort, z3.BoolSort()))
             x = z3.Const("ax_x", sort)
-            ax.append(z3.ForAll([S, x], z3.Implies(z3.Not(z3.Select(S, x)), c(z3.Store(S, x, True)) == c(S) + 1),
+            ax.append(safe_forall([S, x], z3.Implies(z3.Not(z3.Select(S, x)), c(z3.Store(S, x, True)) == c(S) + 1),
                                 patterns=[c(z3.Store(S, x, True))]))
-            ax.append(z3.ForAll([S, x], z3.Implies(z3.Select(S, x), c(z3.Store(S, x, True)) == c(S)),
+            ax.append(safe_forall([S, x], z3.Implies(z3.Select(S, x), c(z3.Store(S, x, True)) == c(S)),
                                 patterns=[c(z3.Store(S, x, True))]))
             ax.append(c(z3.EmptySet(sort)) == 0)
-            ax.append(z3.ForAll([S], c(S) >= 0, patterns=[c(S)]))
+            ax.append(safe_forall([S], c(S) >= 0, patterns=[c(S)]))
     return ax
